@@ -89,7 +89,38 @@ def min_nfft(cls, N, cfg):
     return cfg["order"] + 1
 
 
+_MAKE_COUNT = [0]
+
+
 def make(cls, x, nfft=None, fs=1.0, scale=False, cfg=None):
+    """construct the estimator object.  Every second construction from a float / complex array hands the constructor a private
+    copy and then OVERWRITES that copy in place (as a caller re-using its acquisition buffer does) before anything is computed:
+    the classes compute lazily, so an object that kept a reference to the caller's array instead of its own copy of the data
+    would estimate the overwritten buffer."""
+    _MAKE_COUNT[0] += 1
+    c = _MAKE_COUNT[0]
+    if isinstance(x, np.ndarray) and x.dtype.kind in "fc" and x.ndim == 1 and c % 2 == 0:
+        xin = x.copy()
+        o = _make(cls, xin, nfft, fs, scale, cfg)
+        xin *= 3
+        xin[...] = np.nan
+    else:
+        o = _make(cls, x, nfft, fs, scale, cfg)
+    # an estimator object that went through copy.copy / copy.deepcopy / a pickle round trip is the same estimator (every
+    # seventh construction hands out such a copy instead of the original; the original is dropped)
+    if c % 7 == 3:
+        import copy
+        o = copy.deepcopy(o)
+    elif c % 7 == 5:
+        import pickle
+        o = pickle.loads(pickle.dumps(o))
+    elif c % 7 == 6:
+        import copy
+        o = copy.copy(o)
+    return o
+
+
+def _make(cls, x, nfft=None, fs=1.0, scale=False, cfg=None):
     s = sp()
     cfg = cfg or default_cfg(cls, len(x), np.iscomplexobj(x))
     kw = dict(NFFT=nfft, sampling=fs, scale_by_freq=scale)
